@@ -95,10 +95,14 @@ EnterPre(j) ==
   /\ ndiag' = ndiag + 1
   /\ UNCHANGED <<pid, mode, st, bres, phase, bseg>>
 
-(* a form of the ill-typed catalogue: rejected in every session *)
+(* a form of the ill-typed catalogue: rejected in every session.  An entry with sh > 0 is an  *)
+(* ill-typed definition of the very name that program form sh defines.  For a function that   *)
+(* the session already has, the loop answers such a form with a dialogue ("Redefine? (y/n)"),  *)
+(* not with a rejection: that entry is offered only while the function is not yet defined.     *)
+Offered(c) == P.cat[c].sh = 0 \/ P.cat[c].c # "rettype" \/ P.cat[c].sh \notin Entered
 EnterBad(c) ==
   /\ phase = "session" /\ Between /\ NBad < P.maxbad
-  /\ c \in DOMAIN P.cat
+  /\ c \in DOMAIN P.cat /\ Offered(c)
   /\ hist' = Append(hist, Item("bad", c))
   /\ ndiag' = ndiag + 1
   /\ UNCHANGED <<pid, mode, st, bres, phase, bseg>>
